@@ -4,17 +4,17 @@
    (this is the mechanism of WriteToTTML, WriteToWebVTT (regions, STYLE block) and WriteToSSA (Format line,
    Style rows) after the repair); (2) the SubRip writer model is a function of the cue list alone (no map,
    no clock): determinism is immediate; (3) Merge's definition maps do not depend on the iteration order
-   (C12_merge_order_independent).  Purity ("no writer modifies the list") and the byte-level determinism of the
-   TTML/STL writers are established by the harness; the SSA/ASS writer model takes the iteration order of the
-   styles map as a parameter and its bytes are proved independent of it (C19_ssa_deterministic) (50 repetitions x 5 processes x 6 writer
-   orders, deep snapshots): that half is correspondence, not proof. *)
+   (C12_merge_order_independent); (4) the WebVTT and SSA/ASS writer models take the iteration orders of their maps as
+   parameters and their bytes are proved independent of them (C19_vtt_deterministic, C19_ssa_deterministic); (5) the EBU
+   STL writer ranges over no map and has one hidden input, the clock (Now()), which the model takes as an argument: the
+   bytes depend on it only through the creation and revision date fields of the GSI block (offsets 224..235) and not at
+   all when the metadata supplies both dates.  Purity ("no writer modifies the list") is a property of the functional
+   models by construction; for the real writers it and the byte-level determinism on the real clock / hash seeds are
+   established by the harness (50 repetitions x 5 processes x 6 writer orders, deep snapshots): that half is
+   correspondence, not proof. *)
 From Coq Require Import List NArith Permutation.
 From Astisub Require Import Kit.Base Kit.GoMap Model.Srt Model.Vtt Proofs.VttIOProofs.
 From Astisub Require Import Model.Ssa Proofs.SsaOrder.
-   (C12_merge_order_independent); (4) the EBU STL writer ranges over no map and has one hidden input, the clock
-   (Now()), which the model takes as an argument: the bytes depend on it only through the creation and revision date
-   fields of the GSI block (offsets 224..235) and not at all when the metadata supplies both dates.  Purity ("no writer modifies the list") and the byte-level determinism of the
-   WebVTT/SSA/TTML writers (and of the STL writer on the real clock) are established by the harness (50 repetitions x 5 processes x 6 writer
 From Astisub Require Import Model.Stl Proofs.StlClock.
 Import ListNotations.
 
